@@ -78,6 +78,10 @@ trait Uf: Clone {
     fn unite(&mut self, a: &Self::E, b: &Self::E);
     fn classes(&self, l: &[Self::E]) -> Vec<Vec<Self::E>>;
     fn elem(i: usize) -> Self::E;
+    /// element names for large universes (dense for IntPartition, so that 2^20 elements fit)
+    fn big(i: usize) -> Self::E {
+        Self::elem(i)
+    }
 }
 
 macro_rules! generic_uf {
@@ -127,6 +131,9 @@ impl Uf for PInt {
     }
     fn elem(i: usize) -> usize {
         SPARSE[i % 16] + 2000 * (i / 16)
+    }
+    fn big(i: usize) -> usize {
+        i
     }
 }
 
@@ -335,6 +342,162 @@ pub const SUB_HISTORY: Sub<Hist> = Sub {
     journal: false,
 };
 
+
+// ---------------------------------------------------------------------------
+// structured large histories: shapes that drive the forest to its extremes (balanced tournaments raise
+// the rank once per round, chains and stars do not), far beyond what a random history over a few hundred
+// elements reaches
+
+#[derive(Clone, Debug, Hash)]
+pub struct Big {
+    /// 1 = Partition<String>, 2 = Partition<(i32,i32)>, 3 = IntPartition
+    pub kind: u8,
+    /// 0 = balanced tournament, 1 = chain, 2 = reversed chain, 3 = star, 4 = random pairs
+    pub shape: u8,
+    pub log2: u32,
+    pub salt: u64,
+}
+
+impl Case for Big {
+    fn encode(&self) -> Value {
+        json!({"type": KINDS[self.kind as usize], "shape": self.shape, "log2": self.log2, "salt": self.salt})
+    }
+    fn decode(v: &Value) -> Option<Self> {
+        let kind = KINDS.iter().position(|k| Some(*k) == v.get("type").and_then(|x| x.as_str()))? as u8;
+        Some(Big { kind, shape: v.get("shape")?.as_u64()? as u8, log2: v.get("log2")?.as_u64()? as u32, salt: v.get("salt")?.as_u64()? })
+    }
+    fn weight(&self) -> usize {
+        self.log2 as usize
+    }
+    fn hash64(&self) -> u64 {
+        h64(self)
+    }
+}
+
+/// own model for large universes: class label per element plus member lists, smaller list relabelled
+struct Labels {
+    label: Vec<u32>,
+    members: Vec<Vec<u32>>,
+}
+impl Labels {
+    fn new(n: usize) -> Self {
+        Labels { label: (0..n as u32).collect(), members: (0..n as u32).map(|i| vec![i]).collect() }
+    }
+    fn unite(&mut self, a: usize, b: usize) {
+        let (mut la, mut lb) = (self.label[a] as usize, self.label[b] as usize);
+        if la == lb {
+            return;
+        }
+        if self.members[la].len() < self.members[lb].len() {
+            std::mem::swap(&mut la, &mut lb);
+        }
+        let moved = std::mem::take(&mut self.members[lb]);
+        for &x in &moved {
+            self.label[x as usize] = la as u32;
+        }
+        self.members[la].extend(moved);
+    }
+}
+
+fn compare_big<U: Uf>(inst: &U, m: &Labels, back: &HashMap<U::E, usize>, stride: usize, when: &str) -> Result<(), String> {
+    // representative -> model label must be a bijection on the sampled elements, and a representative
+    // lies in the class it represents
+    let n = m.label.len();
+    let mut rep_of_label: HashMap<u32, usize> = HashMap::new();
+    let mut label_of_rep: HashMap<usize, u32> = HashMap::new();
+    let mut a = 0;
+    while a < n {
+        let r = inst.find(&U::big(a));
+        let ri = *back.get(&r).ok_or_else(|| format!("{}: find({:?}) = {:?} is not an element that was ever named", when, U::big(a), r))?;
+        ensure!(m.label[ri] == m.label[a], "{}: find({:?}) = {:?} does not lie in the class of its argument", when, U::big(a), r);
+        if let Some(&prev) = rep_of_label.get(&m.label[a]) {
+            ensure!(prev == ri, "{}: {:?} and {:?} were united but have different representatives", when, U::big(a), U::big(m.members[m.label[a] as usize][0] as usize));
+        } else {
+            rep_of_label.insert(m.label[a], ri);
+        }
+        if let Some(&prev) = label_of_rep.get(&ri) {
+            ensure!(prev == m.label[a], "{}: find({:?}) = {:?} is also the representative of a class that was never united with it", when, U::big(a), r);
+        } else {
+            label_of_rep.insert(ri, m.label[a]);
+        }
+        a += stride;
+    }
+    Ok(())
+}
+
+fn run_big<U: Uf>(c: &Big, obs: &mut Obs) -> Result<(), String> {
+    let n = 1usize << c.log2;
+    let mut s = c.salt | 1;
+    let mut rnd = move |k: usize| {
+        s ^= s << 13;
+        s ^= s >> 7;
+        s ^= s << 17;
+        (s % k as u64) as usize
+    };
+    let back: HashMap<U::E, usize> = (0..n).map(|i| (U::big(i), i)).collect();
+    ensure!(back.len() == n, "harness: element names collide");
+    let mut inst = U::new();
+    let mut m = Labels::new(n);
+    let mut snapshot: Option<(U, Vec<u32>)> = None;
+    let mut unions: Vec<(usize, usize)> = vec![];
+    match c.shape {
+        0 => {
+            // round r unites the blocks [i, i + 2^r) and [i + 2^r, i + 2^(r+1)) through arbitrary members
+            for r in 0..c.log2 {
+                let h = 1usize << r;
+                let mut i = 0;
+                while i < n {
+                    unions.push((i + rnd(h), i + h + rnd(h)));
+                    i += 2 * h;
+                }
+            }
+        }
+        1 => unions.extend((1..n).map(|i| (i - 1, i))),
+        2 => unions.extend((1..n).rev().map(|i| (i, i - 1))),
+        3 => unions.extend((1..n).map(|i| (if c.salt % 2 == 0 { 0 } else { i }, if c.salt % 2 == 0 { i } else { 0 }))),
+        _ => unions.extend((0..n + n / 2).map(|_| (rnd(n), rnd(n)))),
+    }
+    let total = unions.len();
+    let checkpoints = [total / 3, total / 2, total - total / 8, total];
+    let stride = (n / 4096).max(1);
+    for (k, &(a, b)) in unions.iter().enumerate() {
+        inst.unite(&U::big(a), &U::big(b));
+        m.unite(a, b);
+        if k + 1 == total / 2 {
+            snapshot = Some((inst.clone(), m.label.clone()));
+        }
+        if checkpoints.contains(&(k + 1)) {
+            compare_big(&inst, &m, &back, stride, &format!("after {} of {} unions", k + 1, total))?;
+        }
+    }
+    compare_big(&inst, &m, &back, 1, "at the end")?;
+    // the clone taken half-way must still be what it was
+    if let Some((cl, labels)) = snapshot {
+        let old = Labels { label: labels.clone(), members: { let mut v = vec![vec![]; n]; for (i, &l) in labels.iter().enumerate() { v[l as usize].push(i as u32); } v } };
+        compare_big(&cl, &old, &back, stride.max(3), "clone taken half-way, after the original went on")?;
+    }
+    obs.nontrivial(true);
+    obs.class(["tournament", "chain", "reversed chain", "star", "random pairs"][c.shape as usize]);
+    obs.class(&format!("2^{} elements", c.log2));
+    Ok(())
+}
+
+fn check_big(c: &Big, obs: &mut Obs) -> Result<(), String> {
+    match c.kind {
+        1 => run_big::<PStr>(c, obs),
+        2 => run_big::<PPair>(c, obs),
+        _ => run_big::<PInt>(c, obs),
+    }
+}
+
+pub const SUB_BIG: Sub<Big> = Sub {
+    name: "large_structured",
+    rule: "structured union sequences on 2^k elements (balanced tournament through arbitrary members of the blocks, chain, reversed chain, star, random pairs) against an own label / member-list model: the map representative <-> class is a bijection, representatives lie in their classes, a clone taken half-way is unaffected by the rest; every case is non-trivial",
+    check: check_big,
+    panic_discards: &[],
+    journal: false,
+};
+
 // ---------------------------------------------------------------------------
 // generators
 
@@ -408,6 +571,22 @@ pub fn run(ctx: &mut Ctx) {
             Some(&format!("all histories of length <= {} over {} operations (2 instances, 4 elements: all ordered unite pairs, all finds, classes, clone both ways) x {{IntPartition, Partition<String>}} x {{observe on clone each step, observe at end}}", maxlen, k)),
         );
     }
+    ctx.layer("large");
+    let mut big = vec![];
+    for shape in 0..5u8 {
+        for log2 in [3u32, 7, 10, 12, 15, 16, 17].iter().cloned().chain(if t.pick(0, 1) == 1 { vec![18, 19, 20] } else { vec![] }) {
+            for salt in 0..t.pick(2u64, 4u64) {
+                big.push(Big { kind: 3, shape, log2, salt: salt * 7919 + ctx.seed % 1000 });
+                if log2 <= 17 {
+                    big.push(Big { kind: 2, shape, log2, salt: salt * 104729 + ctx.seed % 1000 });
+                }
+                if log2 <= 12 {
+                    big.push(Big { kind: 1, shape, log2, salt });
+                }
+            }
+        }
+    }
+    ctx.run_par(&SUB_BIG, big, None);
     ctx.layer("random");
     let hl = t.pick(60, 200);
     ctx.run_prop(&SUB_HISTORY, || hist_strategy(hl), t.pick(100_000, 2_000_000));
@@ -416,6 +595,7 @@ pub fn run(ctx: &mut Ctx) {
 pub fn replay(ctx: &mut Ctx, sub: &str, case: &Value) -> Option<Result<(), String>> {
     Some(match sub {
         "history" => ctx.run_one(&SUB_HISTORY, &Hist::decode(case)?),
+        "large_structured" => ctx.run_one(&SUB_BIG, &Big::decode(case)?),
         _ => return None,
     })
 }
